@@ -74,7 +74,7 @@ def shards(tier, seed):
 
 
 def min_required(tier):
-    return {"retrieves_compared": 1000, "model_comparisons": 20000}
+    return {"retrieves_compared": 600, "model_comparisons": 20000}
 
 
 def run_seq(pool, ops, res, pids, fmts):
